@@ -45,6 +45,14 @@ def run_worlds(worlds, jobs=None):
     answers = []
     for r in results:
         if r.world.tag in NOT_MODELLED:
+            answers.append(judge_outcome_only(r))
+        else:
+            answers.append(next(ans))
+    return finish_answers(results, answers)
+
+def judge_outcome_only(r):
+    if True:
+        if True:
             bad = r.result in ("panic", "abort", "timeout")
             fails = ["c16-" + r.result] if bad else []
             # worlds that state the lengths their images must have after the resize pre-flight
@@ -65,9 +73,9 @@ def run_worlds(worlds, jobs=None):
                     fails += ["c12-length", "c01-bytes", "c04-lost"]
             if getattr(r.world, "expect_lines", None) is not None and r.result == "ok" and len(r.counters) != r.world.expect_lines:
                 fails += ["c15-sum"]
-            answers.append("agree " + ("PROPFAIL:" + ",".join(sorted(set(fails))) if fails else "prop-ok") + " not-modelled")
-        else:
-            answers.append(next(ans))
+            return "agree " + ("PROPFAIL:" + ",".join(sorted(set(fails))) if fails else "prop-ok") + " not-modelled"
+
+def finish_answers(results, answers):
     cases = []
     for r, a in zip(results, answers):
         diff = (a.split(" ", 3)[2][5:].split(",") if a.count(" ") >= 2 and a.split(" ", 3)[2].startswith("DIFF:") else None)
@@ -542,14 +550,17 @@ def run(pid, tier, seed, replay=None, props=None):
         return E.finish(res)
     if replay:
         payload = json.load(open(replay))
-        answers = C.run_model([payload["line"]])
+        outcome_only = (payload.get("world") or {}).get("tag") in NOT_MODELLED
         print("stored answer : " + payload.get("answer", "")[:3000])
-        print("model now     : " + answers[0][:3000])
+        if not outcome_only:
+            answers = C.run_model([payload["line"]])
+            print("model now     : " + answers[0][:3000])
         if payload["line"].startswith("run "):
             # re-execute the implementation on the stored world and judge what it does NOW
             w = W.world_from_line(payload["line"], payload.get("world"))
             r = W.execute(w)
-            now = C.run_model([r.line])[0]
+            # (worlds outside the model are judged on the outcome of the run, as in the stream they came from)
+            now = judge_outcome_only(r) if outcome_only else C.run_model([r.line])[0]
             print("implementation re-executed on the stored world: result %s, %d operations" % (r.result, len(r.ops)))
             for note in w.replay_notes:
                 print("note          : " + note)
